@@ -9,9 +9,13 @@
    = link layer aside, err::ipv4/ipv6::HeaderError read as the err::ip::HeaderError
    naming the same fact; `F11` = the decidable known class (input ends inside the
    fixed part of the IPv4 header announced by its first byte, or is empty). *)
+From EP Require Import IoFault.Spec IoFault.Model.
 From EP Require Import Base.Bytes Parse.Types Parse.Slices Parse.Cursor Parse.View
   Parse.HdrModel Parse.LaxSlices Equiv.Model Equiv.ModelRead Equiv.Proofs Equiv.ShiftProofs
-  Equiv.ReadProofs.
+  Equiv.ReadProofs Equiv.ReadBase Equiv.ReadSimple Equiv.ReadChain Equiv.ReadIpHeaders
+  Equiv.ReadTotal Equiv.ReadAll Equiv.ReadValues Equiv.HdrShift Equiv.LaxShift.
+From EP Require Import Parse.LaxCursor.
+From EP Require Roundtrip.Common Roundtrip.Tcp Roundtrip.Ipv4 Roundtrip.Frag BitFields.Model Equiv.ReadValues6.
 
 Local Open Scope N_scope.
 
@@ -95,13 +99,14 @@ Proof. exact ip_headers_dispatch. Qed.
 Print Assumptions C06_dispatch_eq_specific_headers.
 
 (* ---- group 3: read vs from_slice -------------------------------------------- *)
-(* C06_read_eq_slice_partial: proved for 4 of the 17 header types (those whose
-   reader is a single read_exact); full statement:
+(* C06_read_eq_slice_partial (first round): 4 of the 17 header types, those whose
+   reader is a single read_exact.  Superseded by C06_read_eq_slice below, which
+   covers all 17; kept because it is stated as plain equality.  The statement
+   first planned,
      forall t bs, (t = HIpHeaders -> F15 bs = false) ->
-       read_outcome t bs = slice_outcome t bs
-   (missing: the 13 types with a length-dependent second read; they are covered
-   by the correspondence run -- model outcome = implementation outcome on every
-   case -- and by the implementation-side oracle). *)
+       read_outcome t bs = slice_outcome t bs,
+   is FALSE as it stands: see C06_read_cut_fixed_refuted,
+   C06_read_announced_missing_refuted and C06_read_required_len_differs. *)
 Theorem C06_read_eq_slice_partial : forall bs,
   read_outcome HEthernet2 bs = slice_outcome HEthernet2 bs /\
   read_outcome HSingleVlan bs = slice_outcome HSingleVlan bs /\
@@ -158,3 +163,238 @@ Example C06_ex_read :
   read_outcome HIpHeaders ex_ip = OOk 24 /\ slice_outcome HIpHeaders ex_ip = OOk 24 /\
   F15 ex_ip = false.
 Proof. repeat split; vm_compute; reflexivity. Qed.
+
+(* ---- group 3, all 17 header types ---------------------------------------------- *)
+(* outcome of T::read(&mut Cursor::new(bs)) (read side, IoFault/Model.v read programs:
+   OOk n = Ok(header) with the Cursor advanced by n; OEof = Io(UnexpectedEof);
+   OContent k = Content(k); OLen .. = Len(LenError) of the LimitedReader) against
+   the outcome of T::from_slice(bs) (OOk n = header decoded from the first n bytes,
+   i.e. header_len = n; OEof = Len error whose len_source is the slice itself /
+   ArpAddrLengths; OContent, OLen likewise).
+
+   same_reason (Equiv/ReadBase.v): equal outcomes, except that for a LimitedReader
+   length error about a raw IPv6 extension header with fewer than 8 bytes left the
+   required_len may differ (reader: what its current read_exact needs; slice
+   decoder: 8) -- len, len_source, layer and layer_start_offset are equal, both
+   required_len exceed len.  Neither side is ever an "impossible" outcome (OBad).
+
+   Hypotheses: bytes are bytes; outside cut_fixed (HIpv4 / HIpv6 / HIpHeaders only:
+   the data ends inside the fixed 20 / 40 bytes AND the reader has already rejected
+   the version nibble / IHL it saw); for IpHeaders additionally: the slice holds the
+   packet its fixed header announces (announced_missing = false: not (20 <= len <
+   total_len) for IPv4, not (40 <= len < 40 + payload_length) for IPv6) and the
+   input is outside the known class F15.  ICMPv4 / ICMPv6 are compared on the slice
+   that ends with the header (ModelRead.ends_with_header), as the property says. *)
+Theorem C06_read_eq_slice : forall t bs, bytes_ok bs -> cut_fixed t bs = false ->
+  (t = HIpHeaders -> announced_missing bs = false /\ F15 bs = false) ->
+  same_reason (read_outcome t bs) (slice_outcome t bs).
+Proof. exact read_eq_slice_all. Qed.
+Print Assumptions C06_read_eq_slice.
+
+(* plain equality for the 15 types without LimitedReader / loop *)
+Theorem C06_read_eq_slice_exact : forall t bs, bytes_ok bs -> cut_fixed t bs = false ->
+  match t with HIpv6Exts _ | HIpHeaders => True | _ => read_outcome t bs = slice_outcome t bs end.
+Proof. exact read_eq_slice_exact. Qed.
+Print Assumptions C06_read_eq_slice_exact.
+
+(* "... and consumes exactly the header's bytes" *)
+Theorem C06_read_ok_consumes : forall t bs n, bytes_ok bs -> cut_fixed t bs = false ->
+  (t = HIpHeaders -> announced_missing bs = false /\ F15 bs = false) ->
+  read_outcome t bs = OOk n -> slice_outcome t bs = OOk n.
+Proof. exact read_ok_consumes. Qed.
+Print Assumptions C06_read_ok_consumes.
+
+(* the exclusions are needed (witnesses), and what happens inside cut_fixed *)
+Theorem C06_read_cut_fixed_refuted :
+  (cut_fixed HIpv4 [48] = true /\ read_outcome HIpv4 [48] = OContent (KC CVersion) /\
+   slice_outcome HIpv4 [48] = OEof) /\
+  (cut_fixed HIpv6 [64] = true /\ read_outcome HIpv6 [64] = OContent (KC CVersion) /\
+   slice_outcome HIpv6 [64] = OEof) /\
+  (cut_fixed HIpHeaders [64] = true /\ read_outcome HIpHeaders [64] = OContent (KC CIhl) /\
+   slice_outcome HIpHeaders [64] = OEof).
+Proof. exact read_cut_fixed_refuted. Qed.
+Print Assumptions C06_read_cut_fixed_refuted.
+
+Theorem C06_read_cut_fixed_inside : forall bs,
+  (cut_fixed HIpv4 bs = true ->
+   read_outcome HIpv4 bs = OContent (KC CVersion) /\ slice_outcome HIpv4 bs = OEof) /\
+  (cut_fixed HIpv6 bs = true ->
+   read_outcome HIpv6 bs = OContent (KC CVersion) /\ slice_outcome HIpv6 bs = OEof).
+Proof. exact (fun bs => conj (read_cut_fixed_ipv4 bs) (read_cut_fixed_ipv6 bs)). Qed.
+Print Assumptions C06_read_cut_fixed_inside.
+
+Theorem C06_read_announced_missing_refuted :
+  bytes_ok missing_witness /\ cut_fixed HIpHeaders missing_witness = false /\
+  F15 missing_witness = false /\ announced_missing missing_witness = true /\
+  read_outcome HIpHeaders missing_witness = OOk 20 /\ slice_outcome HIpHeaders missing_witness = OEof.
+Proof. exact read_announced_missing_refuted. Qed.
+Print Assumptions C06_read_announced_missing_refuted.
+
+Theorem C06_read_required_len_differs :
+  read_outcome HIpHeaders req_witness = OLen 2 1 LS_IPV6_PAYLOAD L_IPV6EXT 40 /\
+  slice_outcome HIpHeaders req_witness = OLen 8 1 LS_IPV6_PAYLOAD L_IPV6EXT 40.
+Proof. exact read_required_len_differs. Qed.
+Print Assumptions C06_read_required_len_differs.
+
+(* non-vacuity: IPv6 + hop-by-hop + fragment + UDP, every hypothesis holds, both
+   sides accept and the reader consumed 40 + 8 + 8 bytes; cut inside the second
+   extension header by the payload length field: the same LimitedReader error *)
+Definition ex_v6 (pl : N) : bytes :=
+  [96;0;0;0;0;pl;0;64] ++ repeat 0 32 ++ [44;0;1;2;3;4;5;6; 17;0;0;0;0;0;0;1; 0;1;0;2;0;8;0;0].
+Example C06_ex_read_all :
+  bytes_ok (ex_v6 24) /\ cut_fixed HIpHeaders (ex_v6 24) = false /\
+  announced_missing (ex_v6 24) = false /\ F15 (ex_v6 24) = false /\
+  read_outcome HIpHeaders (ex_v6 24) = OOk 56 /\ slice_outcome HIpHeaders (ex_v6 24) = OOk 56 /\
+  announced_missing (ex_v6 12) = false /\ F15 (ex_v6 12) = false /\
+  read_outcome HIpHeaders (ex_v6 12) = OLen 8 4 LS_IPV6_PAYLOAD L_IPV6FRAG 48 /\
+  slice_outcome HIpHeaders (ex_v6 12) = OLen 8 4 LS_IPV6_PAYLOAD L_IPV6FRAG 48 /\
+  read_outcome (HIpv6Exts 0) (drop 40 (ex_v6 24)) = OOk 16 /\
+  read_outcome HTcp (repeat 0 12 ++ [96] ++ repeat 0 11) = OOk 24 /\
+  read_outcome HMacsec [0;1;0;0;0;1] = OContent (KC CMacsecShortLen).
+Proof.
+  split; [apply bytes_okb_spec; vm_compute; reflexivity|]. repeat split; vm_compute; reflexivity.
+Qed.
+
+(* ---- group 3, header values ------------------------------------------------------ *)
+(* C06_read_eq_slice compares outcomes: "decoded from the same n bytes".  For the
+   header types that have a field-level decode model (C08: TcpHeader, Ipv4Header,
+   Ipv6FragmentHeader -- their `read` decodes every field a second time, by hand,
+   independently of XHeaderSlice::to_header) the decoded STRUCTS and the unread
+   rest are equal, for every byte string; a slice Len error is the reader's
+   UnexpectedEof (eof_of_len).  For the other header types the struct equality is
+   checked per case by the harness (`eq` flag: PartialEq of the two results). *)
+Theorem C06_read_value_tcp : forall bs, bytes_ok bs ->
+  Roundtrip.Tcp.read bs = eof_of_len (Roundtrip.Tcp.from_slice bs).
+Proof. exact tcp_read_eq_from_slice. Qed.
+Print Assumptions C06_read_value_tcp.
+
+Theorem C06_read_value_ipv4 : forall bs, bytes_ok bs -> 20 <= len bs ->
+  Roundtrip.Ipv4.ip4_read bs = eof_of_len (Roundtrip.Ipv4.ip4_from_slice bs).
+Proof. exact ip4_read_eq_from_slice. Qed.
+Print Assumptions C06_read_value_ipv4.
+
+Theorem C06_read_value_frag : forall bs,
+  Roundtrip.Frag.frag_read bs = eof_of_len (Roundtrip.Frag.frag_from_slice bs).
+Proof. exact frag_read_eq_from_slice. Qed.
+Print Assumptions C06_read_value_frag.
+
+(* Ipv6Header: the field-level decode models of C15 (BitFields/Model.v) *)
+Theorem C06_read_value_ipv6 : forall bs, bytes_ok bs -> 40 <= len bs ->
+  BitFields.Model.Ipv6Header_read bs =
+  Equiv.ReadValues6.eof_of_len6 (BitFields.Model.Ipv6Header_from_slice bs).
+Proof. exact Equiv.ReadValues6.ip6_read_eq_from_slice. Qed.
+Print Assumptions C06_read_value_ipv6.
+
+Example C06_ex_read_value6 :
+  exists h, BitFields.Model.Ipv6Header_read ([105;18;52;86;0;8;17;64] ++ repeat 1 16 ++ repeat 2 16 ++ [9]) =
+            BitFields.Model.Val h /\ BitFields.Model.v6_traffic_class h = 145 /\
+            BitFields.Model.v6_flow_label h = 144470.
+Proof. eexists. repeat split; vm_compute; reflexivity. Qed.
+
+Example C06_ex_read_value :
+  (exists h, Roundtrip.Tcp.read (repeat 0 12 ++ [96] ++ repeat 0 11 ++ [7]) = Roundtrip.Common.Ok (h, [7]) /\
+             Roundtrip.Tcp.o_len (Roundtrip.Tcp.options h) = 4) /\
+  (exists h, Roundtrip.Ipv4.ip4_read ([70] ++ repeat 0 23 ++ [9]) = Roundtrip.Common.Ok (h, [9])) /\
+  Roundtrip.Tcp.from_slice (repeat 0 12 ++ [96] ++ repeat 0 9) = Roundtrip.Common.Err Roundtrip.Common.ELen /\
+  Roundtrip.Tcp.read (repeat 0 12 ++ [96] ++ repeat 0 9) = Roundtrip.Common.Err Roundtrip.Common.EIo.
+Proof.
+  split; [eexists; split; vm_compute; reflexivity|].
+  split; [eexists; vm_compute; reflexivity|]. split; vm_compute; reflexivity.
+Qed.
+
+(* ---- group 1, struct family (PacketHeaders) --------------------------------------- *)
+(* Ethernet II header present: PacketHeaders::from_ethernet_slice = from_ether_type on
+   the bytes behind it, as VALUES of the model (a decoded header is the sub-slice it
+   was decoded from): every header and the payload 14 bytes later (sh_* 14), the
+   layer_start_offset of a length error 14 later, everything else -- protocol
+   numbers, length sources, content errors, Bug sites -- equal; the decoded Ethernet
+   II header in front.  No bytes_ok needed. *)
+Theorem C06_headers_ethernet_eq_ethertype : forall bs a b,
+  rd bs 12 = Some a -> rd bs 13 = Some b ->
+  PacketHeaders.from_ethernet_slice bs =
+  match PacketHeaders.from_ether_type (be16 a b) (drop 14 bs) with
+  | Ok r => Ok (mkH (Some (0, take 14 bs)) (map (sh_hx 14) (h_exts r)) (option_map (sh_hnet 14) (h_net r))
+                    (option_map (sh_htr 14) (h_transport r)) (sh_hpl 14 (h_payload r)))
+  | Err (ELen e) => Err (ELen (le_add_offset e 14))
+  | r => r
+  end.
+Proof. exact headers_ethernet_eq_ethertype. Qed.
+Print Assumptions C06_headers_ethernet_eq_ethertype.
+
+Theorem C06_headers_ethernet_short : forall bs, len bs < 14 ->
+  PacketHeaders.from_ethernet_slice bs =
+  Err (ELen (mkLenError 14 (len bs) LsSlice LyEthernet2Header 0)).
+Proof. exact headers_ethernet_short. Qed.
+Print Assumptions C06_headers_ethernet_short.
+
+(* pointer-shift equivariance of from_ether_type itself: any k, any ether type *)
+Theorem C06_headers_ethertype_shift : forall k et s,
+  PacketHeaders.from_ether_type_slice et (sh k s) = rmap (sh_hp k) (PacketHeaders.from_ether_type_slice et s).
+Proof. exact from_ether_type_slice_sh. Qed.
+Print Assumptions C06_headers_ethertype_shift.
+
+(* ether type IPv4 / IPv6 with the matching nibble = starting at IP; NO exclusion:
+   F11 does not reach this family (both struct copies check 20 bytes before the IHL) *)
+Theorem C06_headers_ethertype_eq_ip : forall b rest,
+  (N.shiftr b 4 = 4 ->
+   same_answer (PacketHeaders.from_ip_slice (b :: rest)) (PacketHeaders.from_ether_type ET_IPV4 (b :: rest))) /\
+  (N.shiftr b 4 = 6 ->
+   same_answer (PacketHeaders.from_ip_slice (b :: rest)) (PacketHeaders.from_ether_type ET_IPV6 (b :: rest))).
+Proof. exact headers_ethertype_eq_ip. Qed.
+Print Assumptions C06_headers_ethertype_eq_ip.
+
+Example C06_ex_headers :
+  (exists r, PacketHeaders.from_ethernet_slice ex_pkt = Ok r /\
+             h_link r = Some (0, firstn 14 ex_pkt) /\
+             h_transport r = Some (HtUdp (38, firstn 8 (skipn 38 ex_pkt)))) /\
+  (exists r, PacketHeaders.from_ether_type 33024 (drop 14 ex_pkt) = Ok r /\
+             h_transport r = Some (HtUdp (24, firstn 8 (skipn 38 ex_pkt)))) /\
+  PacketHeaders.from_ethernet_slice (firstn 41 ex_pkt) =
+    Err (ELen (mkLenError 32 23 LsSlice LyIpv4Packet 18)) /\
+  PacketHeaders.from_ether_type 33024 (drop 14 (firstn 41 ex_pkt)) =
+    Err (ELen (mkLenError 32 23 LsSlice LyIpv4Packet 4)) /\
+  (exists r, PacketHeaders.from_ip_slice ex_ip = Ok r /\ PacketHeaders.from_ether_type ET_IPV4 ex_ip = Ok r).
+Proof.
+  split; [eexists; repeat split; vm_compute; reflexivity|].
+  split; [eexists; repeat split; vm_compute; reflexivity|].
+  split; [vm_compute; reflexivity|]. split; [vm_compute; reflexivity|].
+  eexists; split; vm_compute; reflexivity.
+Qed.
+
+(* ---- group 1, lax slicing family (LaxSlicedPacket) --------------------------------- *)
+(* lrrel k (Equiv/LaxShift.v): both Ok with link extensions, net and transport
+   slices k bytes later and the stop error equal except for its layer_start_offset,
+   k later (layer tag, required_len, len, len_source equal); link layer aside.
+   (Err/Err with equal errors and Bug/Bug cover outcomes neither side has once the
+   14 Ethernet bytes are present.) *)
+Theorem C06_lax_ethernet_eq_ethertype : forall bs a b,
+  rd bs 12 = Some a -> rd bs 13 = Some b ->
+  lrrel 14 (LaxSlicedPacket.from_ethernet bs) (LaxSlicedPacket.from_ether_type (be16 a b) (drop 14 bs)).
+Proof. exact lax_ethernet_eq_ethertype. Qed.
+Print Assumptions C06_lax_ethernet_eq_ethertype.
+
+Theorem C06_lax_ethernet_short : forall bs, len bs < 14 ->
+  LaxSlicedPacket.from_ethernet bs = Err (ELen (mkLenError 14 (len bs) LsSlice LyEthernet2Header 0)).
+Proof. exact lax_ethernet_short. Qed.
+Print Assumptions C06_lax_ethernet_short.
+
+(* ether type IPv4 or IPv6 (whatever the version nibble: F10) = from_ip repackaged:
+   the ether payload recorded as link layer, and the first header's error -- which
+   from_ip returns -- kept as stop error of layer IpHeader.  No exclusion. *)
+Theorem C06_lax_ethertype_eq_ip : forall et bs, et = ET_IPV4 \/ et = ET_IPV6 ->
+  LaxSlicedPacket.from_ether_type et bs = lax_ip_as_ether_type et bs (LaxSlicedPacket.from_ip bs).
+Proof. exact lax_ethertype_eq_ip. Qed.
+Print Assumptions C06_lax_ethertype_eq_ip.
+
+Example C06_ex_lax :
+  (exists p q, LaxSlicedPacket.from_ethernet (firstn 41 ex_pkt) = Ok p /\
+     LaxSlicedPacket.from_ether_type 33024 (drop 14 (firstn 41 ex_pkt)) = Ok q /\
+     lsp_stop_err p = Some (ELen (mkLenError 8 3 LsSlice LyUdpHeader 38), LyUdpHeader) /\
+     lsp_stop_err q = Some (ELen (mkLenError 8 3 LsSlice LyUdpHeader 24), LyUdpHeader)) /\
+  LaxSlicedPacket.from_ip [69] = Err (ELen (mkLenError 20 1 LsSlice LyIpv4Header 0)) /\
+  (exists q, LaxSlicedPacket.from_ether_type ET_IPV4 [69] = Ok q /\
+     lsp_stop_err q = Some (ELen (mkLenError 20 1 LsSlice LyIpv4Header 0), LyIpHeader)).
+Proof.
+  split; [do 2 eexists; repeat split; vm_compute; reflexivity|].
+  split; [vm_compute; reflexivity|]. eexists; split; vm_compute; reflexivity.
+Qed.
